@@ -66,7 +66,9 @@ def stepC (bl : List (Sess × Cls)) : Sess → Cls → Option Cls
     else none
   | .defer cl b, c => if isOpCall cl then stepC bl b c else none
   | .scope _ b, c => stepC bl b c
-  | .when _ b, c => (stepC bl b c).map (Cls.join c)
+  | .when cond b, c =>
+    if cond = .never then some c
+    else (stepC bl b (if cond = .not .err then .A else c)).map (Cls.join c)
 
 variable (bad : Role → Reply → Bool)
 
@@ -431,13 +433,38 @@ theorem stepC_sound (bl : List (Sess × Cls))
     exact ih c c' h env s hg
   | «when» cond b ih =>
     intro c c' h env s hg
-    simp only [stepC, Option.map_eq_some_iff] at h
-    obtain ⟨x, hx, rfl⟩ := h
-    simp only [exec]
-    split
-    · split
-      · exact G_join_right bad (ih c x hx env s hg)
-      · exact G_join_left bad hg
-    · exact G_join_left bad hg
+    simp only [stepC] at h
+    by_cases hm : s.mode = .run
+    · split at h
+      · rename_i hn
+        simp only [Option.some.injEq] at h; subst h; subst hn
+        simpa [exec, hm, evalCond] using hg
+      · simp only [Option.map_eq_some_iff] at h
+        obtain ⟨x, hx, rfl⟩ := h
+        simp only [exec, hm, if_true]
+        by_cases hcond : evalCond cond env s = true
+        · simp only [hcond, if_true]
+          refine G_join_right bad (ih _ x hx env s ?_)
+          split
+          · rename_i hce
+            subst hce
+            simp only [evalCond, Bool.not_eq_true'] at hcond
+            cases c with
+            | A => exact hg
+            | E =>
+              simp only [G] at hg ⊢
+              refine ⟨hg.safe, fun _ => ?_, hg.cont, hg.ret⟩
+              cases hf : faulted bad s.tr with
+              | false => rfl
+              | true => have := hg.run hm hf; rw [hcond] at this; cases this
+          · exact hg
+        · simp only [hcond, if_false]
+          exact G_join_left bad hg
+    · rw [exec_nonrun _ _ _ hm]
+      split at h
+      · simp only [Option.some.injEq] at h; subst h; exact hg
+      · simp only [Option.map_eq_some_iff] at h
+        obtain ⟨x, _, rfl⟩ := h
+        exact G_join_left bad hg
 
 end NA.C09
